@@ -214,18 +214,7 @@ def judge_family(out, results, matchers, detail_fn=None, max_unsupported=0.2):
                    if k != "target_loops"}
         sdetail["witnesses"] = wit[:4]
         for cl in sorted({f[0] for f in fails}):
-            hit = None
-            for f in out.findings:
-                m = matchers.get(f["match"])
-                if m and m(rec, cl, detail, f):
-                    hit = f["id"]
-                    break
-            if hit:
-                out.known_hit[hit] = out.known_hit.get(hit, 0) + 1
-                out.known_examples.setdefault(hit, {"case": slim, "clause": cl,
-                                                    "detail": sdetail})
-            else:
-                out.violations.append({"case": slim, "clause": cl, "detail": sdetail})
+            out.classify(rec, cl, detail, slim, sdetail)
     crashes = [r for r in results if r["status"] == "crash"]
     unsup = [r for r in results if r["status"] == "unsupported"]
     return {"states": res.states, "transitions": res.transitions,
